@@ -448,6 +448,12 @@ Definition spec_C04_validation (c : list file_result * list file_result) : bool 
     forallb (fun d => existsb (diag_eqb_msg d) ds0 ||
                       (in_ranges (d_range d) nodes && forallb (fun r => in_ranges r nodes) (d_related d))) ds) c.
 
+(* C02: Q lines = two layouts of one document: they must lex to the same tokens (the hypothesis of C02_tree_is_a_function_of_the_tokens) *)
+Definition d_qcase (s : sx) : option (str * str) :=
+  match s with L [a; b] => do a' <- d_str a; do b' <- d_str b; Some (a', b') | _ => None end.
+Definition spec_C02_lexsim (c : str * str) : bool :=
+  let '(a, b) := c in lexsim_b (S (length a + length b)) a 0 b 0.
+
 Definition checks : list (string * (sx -> N)) :=
   [ ("corr_validate"%string, run_bool d_vcase corr_validate);
     ("corr_C09"%string, run_bool d_vcase corr_C09);
@@ -464,6 +470,7 @@ Definition checks : list (string * (sx -> N)) :=
     ("spec_C11_sorted"%string, run_bool d_vcase spec_C11_sorted);
     ("corr_C12"%string, run_bool d_hcase corr_C12);
     ("spec_C20"%string, spec_C20); ("corr_C20"%string, run_bool d_pcase corr_C20);
+    ("spec_C02_lexsim"%string, run_bool d_qcase spec_C02_lexsim);
     ("corr_parse"%string, run_bool d_pcase corr_parse); ("corr_parse_shape"%string, run_bool d_pcase corr_parse_shape);
     ("spec_C03_kept"%string, run_bool d_vcase spec_C03_kept); ("spec_C04_validation"%string, run_bool d_vcase spec_C04_validation);
     ("corr_C19"%string, run_bool (fun s => match s with L [x] => d_list d_aidl x | _ => None end) corr_C19) ].
